@@ -14,7 +14,13 @@ An operation that makes no sense in the current phase (suspend while suspended, 
 history ends while the task is suspended / running, `continue` / `finish ok` is executed (and recorded) implicitly.
 Observed after every operation: the pause()/resume() calls on plain contexts since the previous operation (with ids), the
 exception that escaped the operation (token), the values of the scoped variables, whether the task is computed (and how).
-Replayed by the Lean model AsynqModel.Contexts (driver mode `ctxhist`); theorems in AsynqModel/Theorems/C06c.lean."""
+Replayed by the Lean model AsynqModel.Contexts (driver mode `ctxhist`); theorems in AsynqModel/Theorems/C06c.lean.
+
+Cases with a "hooks" field (hook_cases below; second audit item 12): the plain contexts are COMPOSITE - their resume() / pause()
+call member.__enter__() / member.__exit__() of other contexts of the case from inside the hook - and the history may hold
+`revisit` (the task is suspended on several real batches at once; each revisit = the flush body of one of them returns and the
+real scheduler visits the still blocked task again: _resume_contexts, _pause_contexts).  Header `(hooks ...)`, replayed by
+AsynqModel.Contexts.runH (Lib/ContextsHooks.lean, Drv/Contexts.lean handleH); theorems C06h_* in Theorems/C06h.lean."""
 import hashlib
 import itertools
 import json
@@ -45,7 +51,7 @@ CONFIGS = {
     "ov-outer": [["ov", 0, 100], ["ov", 0, 1]],          # an override with the value the variable has anyway
     "ov-dup": [["ov", 0, 1], ["ov", 0, 1], ["ov", 1, 101]],
 }
-LEAN_MODULES = ["AsynqModel.Theorems.C06c", "AsynqModel.Theorems.C06w"]
+LEAN_MODULES = ["AsynqModel.Theorems.C06c", "AsynqModel.Theorems.C06w", "AsynqModel.Theorems.C06h"]
 THEOREMS = ["C06c_spec_partial", "C06c_spec_holds_repaired", "C06c_enter_leak_counterexample", "C06c_enter_leak_reorders_counterexample",
             "C06c_suspend_pauses_all_in_reverse_entry_order", "C06c_pause_error_fails_task",
             "C06c_nonasync_suspension_fails_task", "C06c_continue_resumes_all_in_entry_order", "C06c_exit_pauses_iff_resumed",
@@ -53,18 +59,30 @@ THEOREMS = ["C06c_spec_partial", "C06c_spec_holds_repaired", "C06c_enter_leak_co
             "C06c_paused_task_has_outer_values", "C06c_all_closed_restored", "C06c_registered_are_the_open_blocks",
             "C06c_alternate", "C06c_model_alternates",
             "C06c_exit_not_entered", "C06c_enter_twice_keeps_place", "C06c_values_need_lifo",
-            "C06w_alternate_needs_no_raise"]   # in namespace AsynqModel.Contexts
+            "C06w_alternate_needs_no_raise",
+            # hook-issued operations and revisits (Lib/ContextsHooks.lean), what `spec` claims after a misuse
+            "C06h_reduces_to_plain", "C06h_hook_enter_registered", "C06h_no_crash", "C06h_live_iteration_counterexample",
+            "C06h_live_iteration_last_is_silent", "C06h_composite_pause_order", "C06h_pause_walks_copy", "C06h_revisit_example",
+            "C06h_revisit_resume_error_fails_task", "C06h_observer_silent_after_misuse",
+            "C06h_spec_is_about_the_prefix"]   # in namespace AsynqModel.Contexts
 RULE = ("histories of context operations (enter / exit via manual __enter__/__exit__ in ANY order, suspend = yield of a real batch "
         "item, continue, finish ok/error; operations during the suspension run in the flush body, after the end at top level) on ONE "
         "real task over 1-4 contexts (plain AsyncContext with pause()/resume() raising at scripted call numbers, "
         "AsyncScopedValue.override, NonAsyncContext): all well-phased histories up to length 3 (quick) / 4 (thorough) over the "
         "core context sets + sampled length 4-5 + random histories of 6-25 operations, replayed in the Lean model "
         "AsynqModel.Contexts; non-trivial = a suspension/continuation that calls a hook or changes a scoped value; distinct by "
-        "hash of (contexts, history)")
+        "hash of (contexts, history); plus histories over COMPOSITE contexts (real AsyncContext subclasses whose resume()/pause() "
+        "call member.__enter__()/__exit__() from inside the hook; resume() scripts only enter) and with `revisit` operations (the "
+        "task is suspended on several real batches at once: the scheduler visits it again after each flush), 13 fixed + random "
+        "histories of 3-18 operations, replayed in AsynqModel.Contexts.runH (Lib/ContextsHooks.lean)")
 TRUSTED = ["hand-written Lean model AsynqModel.Contexts (contexts.py, scoped_value.py, context bookkeeping of async_task.py) tied "
            "to the code by the differential run of harness/checks/ctxhist.py only",
            "harness/checks/ctxhist.py: interpreter of a history on the real library (task body / flush body / top level)"]
-ASSUMPTIONS = ["ctxhist: one task; hooks fail with Exceptions at scripted call numbers; scoped-value overrides never raise"]
+ASSUMPTIONS = ["ctxhist: one task; hooks fail with Exceptions at scripted call numbers; scoped-value overrides never raise",
+               "ctxhist hooks: members of a composite have no hook actions themselves; one top-level task (hooks called by the "
+               "scheduler run while no task is active); the plan holds no resume() script that leaves a context (such a script "
+               "can make _resume_contexts raise RuntimeError out of the scheduler: C06h_live_iteration_counterexample, "
+               "ctxhist.CRASH_DEMOS)"]
 CORE_CONFIGS = ["plain2", "ov-same", "ov-diff", "na-plain", "praise1", "rraise2"]
 NVARS = 2
 
@@ -210,6 +228,157 @@ def cases(tier, rng, focus=None):
         while focus == "ov" and not has_ov(ctxs):
             ctxs = random_ctxs(rng)
         out.append(mk(ctxs, random_history(rng, ctxs, rng.randint(6, 25), rng.choice([0.97, 0.9, 0.75])), "long", rng.randint(0, 1)))
+    out += hook_cases(tier, rng, focus)
+    return out
+
+
+# ---------------------------------------------------------------------------------------------------------------------
+# histories with HOOK ACTIONS and REVISITS (second audit item 12; model: AsynqModel/Lib/ContextsHooks.lean, theorems C06h_*):
+#   * a case with a "hooks" field: per context [[actions of resume()], [actions of pause()]], an action = ["enter", m] /
+#     ["exit", m]: the hook of a real AsyncContext subclass calls objs[m].__enter__() / objs[m].__exit__(None, None, None)
+#     from INSIDE resume() / pause() (a composite context applying member contexts); members are leaves (no actions);
+#   * the operation ["revisit"] (while the task is suspended): the task was suspended on SEVERAL real batches at once, the
+#     flush body of one of them returns, the real scheduler visits the still blocked task again (_resume_contexts,
+#     _pause_contexts) and flushes the next batch.
+# The check plan only holds scripts whose resume() part never LEAVES a context (theorem C06h_no_crash); a resume() hook that
+# unregisters a context of the task makes AsyncTask._resume_contexts raise RuntimeError out of the scheduler
+# (C06h_live_iteration_counterexample; CRASH_DEMOS below are replayed by tools, not by the check).
+def comp(members):
+    return [[["enter", m] for m in members], [["exit", m] for m in reversed(members)]]
+
+
+NOH = [[], []]
+HOOK_CONFIGS = {
+    # (contexts, hooks)
+    "comp2": ([["plain", [], []], ["plain", [], []], ["plain", [], []]], [comp([1, 2]), NOH, NOH]),
+    "plain-comp1": ([["plain", [], []], ["plain", [], []], ["plain", [], []]], [NOH, comp([2]), NOH]),
+    "comp1-plain": ([["plain", [], []], ["plain", [], []], ["plain", [], []]], [comp([1]), NOH, NOH]),
+    "comp-ov": ([["plain", [], []], ["ov", 0, 5], ["ov", 0, 6]], [comp([1]), NOH, NOH]),
+    "comp-ov2": ([["ov", 0, 4], ["plain", [], []], ["ov", 0, 5], ["ov", 1, 6]], [NOH, comp([2, 3]), NOH, NOH]),
+    "comp-na": ([["plain", [], []], ["na"]], [comp([1]), NOH]),
+    "comp-mraise": ([["plain", [], []], ["plain", [2], []], ["plain", [], [2]]], [comp([1, 2]), NOH, NOH]),
+    "comp-craise": ([["plain", [2], [2]], ["plain", [], []]], [comp([1]), NOH]),
+    "two-comps": ([["plain", [], []], ["plain", [], []], ["plain", [], []], ["plain", [], []]], [comp([2]), comp([3]), NOH, NOH]),
+    "shared-member": ([["plain", [], []], ["plain", [], []], ["plain", [], []]], [comp([2]), comp([2]), NOH]),
+    "pause-enters": ([["plain", [], []], ["plain", [], []]], [[[], [["enter", 1]]], NOH]),
+    "pause-leaves-only": ([["plain", [], []], ["plain", [], []]], [[[], [["exit", 1]]], NOH]),
+    "resume-enters-only": ([["plain", [], []], ["plain", [], []], ["ov", 1, 7]], [[[["enter", 1], ["enter", 2]], []], NOH, NOH]),
+    "no-hooks": ([["plain", [], []], ["plain", [], []]], [NOH, NOH]),
+    "no-hooks-ov": ([["ov", 0, 1], ["plain", [2], []], ["ov", 0, 2]], [NOH, NOH, NOH]),
+    "no-hooks-raise": ([["plain", [2, 3], []], ["plain", [], [2]]], [NOH, NOH]),
+}
+HOOK_FIXED = [
+    # one suspension on two / three batches: R P flush R P flush R
+    ("no-hooks", [["enter", 0], ["suspend"], ["revisit"], ["continue"], ["exit", 0]]),
+    ("no-hooks", [["enter", 0], ["enter", 1], ["suspend"], ["revisit"], ["exit", 1], ["revisit"], ["continue"]]),
+    ("no-hooks-raise", [["enter", 0], ["enter", 1], ["suspend"], ["revisit"], ["revisit"], ["continue"]]),
+    ("no-hooks-ov", [["enter", 0], ["enter", 2], ["suspend"], ["revisit"], ["enter", 1], ["continue"], ["suspend"], ["revisit"]]),
+    # the composite of the round-5 family: entered by the running body, suspended twice, left
+    ("comp2", [["enter", 0], ["suspend"], ["continue"], ["suspend"], ["continue"], ["exit", 0]]),
+    ("comp2", [["enter", 0], ["suspend"], ["revisit"], ["continue"], ["exit", 0]]),
+    ("plain-comp1", [["enter", 0], ["enter", 1], ["suspend"], ["continue"], ["suspend"], ["continue"], ["exit", 1], ["exit", 0]]),
+    ("comp-ov", [["enter", 0], ["enter", 2], ["suspend"], ["continue"], ["suspend"], ["continue"], ["exit", 2], ["exit", 0]]),
+    ("comp-na", [["enter", 0], ["suspend"], ["continue"]]),
+    ("comp-mraise", [["enter", 0], ["suspend"], ["continue"], ["suspend"], ["continue"]]),
+    ("comp-craise", [["enter", 0], ["suspend"], ["continue"], ["suspend"]]),
+    ("shared-member", [["enter", 0], ["enter", 1], ["suspend"], ["continue"], ["exit", 1], ["exit", 0]]),
+    ("comp2", [["suspend"], ["enter", 0], ["continue"], ["suspend"], ["continue"], ["exit", 0]]),      # entered in the flush body
+]
+# NOT in the plan (the real library lets RuntimeError out of the scheduler; see C06h_live_iteration_counterexample)
+CRASH_DEMOS = [
+    ([["plain", [], []], ["plain", [], []], ["plain", [], []]], [[[["exit", 1]], []], NOH, NOH],
+     [["enter", 1], ["enter", 0], ["enter", 1], ["enter", 2], ["suspend"], ["continue"], ["enter", 1], ["exit", 2]]),
+    # the same mutation by the hook of the LAST registered context: the iteration is over, nothing is raised
+    ([["plain", [], []], ["plain", [], []], ["plain", [], []]], [[[["exit", 1]], []], NOH, NOH],
+     [["enter", 1], ["enter", 0], ["exit", 0], ["enter", 1], ["enter", 2], ["suspend"], ["enter", 0], ["exit", 0], ["continue"], ["exit", 2]]),
+    ([["plain", [], []], ["plain", [], []], ["plain", [], []]], [[[["exit", 1]], []], NOH, NOH],
+     [["enter", 1], ["enter", 0], ["enter", 1], ["enter", 2], ["suspend"], ["revisit"], ["continue"]]),
+]
+
+
+def mk_hooks(ctxs, hooks, ops, origin):
+    return {"special": "ctxhist", "ctxs": ctxs, "hooks": hooks, "ops": ops, "origin": origin, "gx": 0}
+
+
+def hooks_ok(ctxs, hooks):
+    """members are leaves, only plain contexts have scripts, no resume() script leaves a context"""
+    tg = set(a[1] for h in hooks for a in h[0] + h[1])
+    return (len(hooks) == len(ctxs) and all(m < len(ctxs) and hooks[m] == NOH for m in tg)
+            and all(h == NOH or ctxs[i][0] == "plain" for i, h in enumerate(hooks))
+            and all(a[0] == "enter" for h in hooks for a in h[0]))
+
+
+def random_hooks(rng, ctxs):
+    n = len(ctxs)
+    plains = [i for i in range(n) if ctxs[i][0] == "plain"]
+    if not plains or n < 2:
+        return [list(NOH) for _ in ctxs]
+    owners = rng.sample(plains, min(len(plains), rng.choice([1, 1, 2])))
+    owners = owners[:max(1, min(len(owners), n - 1))]
+    leaves = [i for i in range(n) if i not in owners]
+    hooks = [[[], []] for _ in ctxs]
+    for o in owners:
+        ms = rng.sample(leaves, rng.randint(1, min(3, len(leaves))))
+        style = rng.random()
+        if style < 0.7:
+            hooks[o] = comp(ms)
+        elif style < 0.85:
+            hooks[o] = [[["enter", m] for m in ms], [[rng.choice(["enter", "exit"]), rng.choice(leaves)] for _ in range(rng.randint(0, 3))]]
+        else:
+            hooks[o] = [[], [[rng.choice(["enter", "exit", "exit"]), rng.choice(leaves)] for _ in range(rng.randint(1, 3))]]
+    return hooks
+
+
+def random_hook_history(rng, ctxs, hooks, n, tidy):
+    """like random_history, with revisits; `tidy` histories leave the members to their composites"""
+    tg = set(a[1] for h in hooks for a in h[0] + h[1])
+    tops = [c for c in range(len(ctxs)) if c not in tg] or list(range(len(ctxs)))
+    ops, open_, ph = [], [], "running"
+    for _ in range(n):
+        if rng.random() < tidy:
+            ch = []
+            closed = [c for c in tops if c not in open_]
+            ch += [["enter", c] for c in closed] * 2
+            if open_:
+                ch += [["exit", open_[-1]]] * 2 + [["exit", rng.choice(open_)]]
+            if ph == "running":
+                ch += [["suspend"]] * 4
+                if rng.random() < 0.06:
+                    ch.append(["finish", rng.randint(0, 1)])
+            elif ph == "suspended":
+                ch += [["continue"]] * 4 + [["revisit"]] * 3
+            op = rng.choice(ch) if ch else ["enter", 0]
+        else:
+            op = rng.choice(alphabet(len(ctxs)) + [["revisit"]])
+        ops.append(list(op))
+        if op[0] == "enter" and op[1] not in open_:
+            open_.append(op[1])
+        elif op[0] == "exit" and op[1] in open_:
+            open_.remove(op[1])
+        elif op[0] == "suspend" and ph == "running":
+            ph = "suspended"
+        elif op[0] == "continue" and ph == "suspended":
+            ph = "running"
+        elif op[0] == "finish" and ph == "running":
+            ph = "done"
+    return ops
+
+
+def hook_cases(tier, rng, focus=None):
+    names = sorted(c for c in HOOK_CONFIGS if focus != "ov" or has_ov(HOOK_CONFIGS[c][0]))
+    out = [mk_hooks(HOOK_CONFIGS[c][0], HOOK_CONFIGS[c][1], ops, "hooks-fixed") for c, ops in HOOK_FIXED if c in names]
+    n = (260 if focus is None else 160) if tier == "quick" else (8000 if focus is None else 4000)
+    for _ in range(n):
+        if rng.random() < 0.6:
+            ctxs, hooks = HOOK_CONFIGS[rng.choice(names)]
+        else:
+            ctxs = random_ctxs(rng)
+            while focus == "ov" and not has_ov(ctxs):
+                ctxs = random_ctxs(rng)
+            hooks = random_hooks(rng, ctxs)
+        assert hooks_ok(ctxs, hooks), (ctxs, hooks)
+        out.append(mk_hooks(ctxs, hooks, random_hook_history(rng, ctxs, hooks, rng.randint(3, 18), rng.choice([1.0, 0.95, 0.85, 0.7])),
+                            "hooks-random"))
     return out
 
 
@@ -341,6 +510,8 @@ def op_sx(op):
         return ["finish", 1 if op[1] else 0]
     if op[0] == "continue":
         return ["continue"]
+    if op[0] == "revisit":
+        return ["revisit"]
     return list(op)
 
 
@@ -353,6 +524,7 @@ def run(case):
     ops = [list(o) for o in case["ops"]]
     nb = case.get("blocks", 0) if case.get("special") == "ctxwith" else 0
     nvars = max([NVARS] + [c[1] + 1 for c in ctxdefs if c[0] == "ov"])
+    hooks = case.get("hooks") if not nb else None       # per context [[actions of resume()], [actions of pause()]]
     build = os.environ.get("ASYNQ_VERIF_BUILD", "py")
     typed = 1 if type(contexts.AsyncContext.__dict__.get("_active_task")).__name__ == "getset_descriptor" else 0
 
@@ -372,12 +544,25 @@ def run(case):
             log.append(["R", self.i, 1 if self.nr in self.rr else 0])
             if self.nr in self.rr:
                 raise boom_r[self.i]
+            self.act(0)
 
         def pause(self):
             self.np += 1
             log.append(["P", self.i, 1 if self.np in self.pr else 0])
             if self.np in self.pr:
                 raise boom_p[self.i]
+            self.act(1)
+
+        def act(self, which):
+            """a composite context: the hook itself enters / leaves member contexts (what they raise leaves the hook)"""
+            if hooks is None:
+                return
+            for a in hooks[self.i][which]:
+                if a[1] < len(objs):
+                    if a[0] == "enter":
+                        objs[a[1]].__enter__()
+                    else:
+                        objs[a[1]].__exit__(None, None, None)
 
     class NA(contexts.NonAsyncContext):
         pass
@@ -467,7 +652,7 @@ def run(case):
                     exc = e
                 snapshot(op, token(exc))
             elif (k == "suspend" and st["phase"] == "running") or (k == "continue" and st["phase"] == "suspended") or \
-                    (k == "finish" and st["phase"] == "running"):
+                    (k == "finish" and st["phase"] == "running") or (k == "revisit" and st["phase"] == "suspended"):
                 return op
             else:
                 snapshot(op, "skip")
@@ -480,6 +665,10 @@ def run(case):
                 cur[0] = B()
 
         def _flush(self):
+            if st.get("over"):                 # a batch left behind by a task that was failed while suspended, flushed by the
+                for it in self.items:          # computation that follows the history: not part of the history
+                    it.set_value(1)
+                return
             close_pending()                    # the suspend operation is complete: the scheduler has paused the task
             op = simple()
             if op is None:
@@ -512,8 +701,22 @@ def run(case):
                     return 7
                 raise task_err
             st["phase"] = "suspended"
+            # one real batch per flush body of this suspension: every `revisit` before the next `continue` ends one
+            nrev = 0
+            for o in ops[st["pos"]:]:
+                if o[0] == "continue":
+                    break
+                if o[0] == "revisit":
+                    nrev += 1
             try:
-                yield I()
+                if nrev == 0:
+                    yield I()
+                else:
+                    items = []
+                    for _i in range(nrev + 1):
+                        items.append(I())
+                        cur[0] = B()           # the next item belongs to a batch of its own
+                    yield tuple(items)
             except GeneratorExit:
                 return                         # the task was failed while suspended / when it was continued
             close_pending()                    # the continue operation is complete: the task runs again
@@ -572,13 +775,14 @@ def run(case):
         escaped = e
     st["phase"] = "done"
     t = st["task"]
-    if nb and st["pending"] is not None:
+    if (nb or hooks is not None) and st["pending"] is not None:
         # the operation during which value() returned: what left the scheduler loop although it is not the task's outcome
         op, st["pending"] = st["pending"], None
         foreign = escaped is not None and not (t.is_computed() and t.error() is escaped)
-        snapshot(op, token(escaped) if (foreign and op[0] in ("suspend", "continue")) else "none")
+        snapshot(op, token(escaped) if (foreign and op[0] in ("suspend", "continue", "revisit")) else "none")
     close_pending()
     simple()
+    st["over"] = True
     final_status = status()
     if escaped is None:
         esc = "none"
@@ -603,6 +807,9 @@ def run(case):
 
     lines = ["(case ctxhist %d %s %s %s)" % (case["id"], sx(["typed", typed]), sx(["ctxs"] + [ctx_sx(c) for c in ctxdefs]),
                                             sx(["vars", nvars]))]
+    if hooks is not None:
+        lines = ["(case ctxhist %d %s %s %s %s)" % (case["id"], sx(["typed", typed]), sx(["ctxs"] + [ctx_sx(c) for c in ctxdefs]),
+                                                    sx(["vars", nvars]), sx(["hooks"] + [[list(h[0]), list(h[1])] for h in hooks]))]
     if nb:
         lines = ["(case ctxwith %d %s %s %s %s)" % (case["id"], sx(["typed", typed]), sx(["ctxs"] + [ctx_sx(c) for c in ctxdefs]),
                                                     sx(["vars", nvars]), sx(["blocks", nb]))]
@@ -632,12 +839,18 @@ def run(case):
         feats.append("ctxhist-has=skipped-op")
     if case.get("gx"):
         feats.append("ctxhist-exit-with-GeneratorExit")
+    if hooks is not None:
+        feats.append("ctxhist-hooks")
+        if any(h != NOH for h in hooks):
+            feats.append("ctxhist-has=hook-actions")
+        if any(o[1][0] == "revisit" and o[3][1] != "skip" for o in obs):
+            feats.append("ctxhist-has=revisit")
     if isinstance(final_status, list):
         feats.append("ctxhist-task-failed=" + (final_status[1] if isinstance(final_status[1], str) else final_status[1][0]))
-    interesting = any(o[1][0] in ("suspend", "continue") and (len(o[2]) > 1 or o[4][1:] != [100 + i for i in range(nvars)]) for o in obs)
+    interesting = any(o[1][0] in ("suspend", "continue", "revisit") and (len(o[2]) > 1 or o[4][1:] != [100 + i for i in range(nvars)]) for o in obs)
     nontrivial = None
     if interesting:
-        nontrivial = "ctxhist-" + hashlib.sha1(json.dumps([ctxdefs, ops], sort_keys=True).encode()).hexdigest()[:16]
+        nontrivial = "ctxhist-" + hashlib.sha1(json.dumps([ctxdefs, ops] + ([hooks] if hooks is not None else []), sort_keys=True).encode()).hexdigest()[:16]
     return {"lines": lines, "features": feats, "nontrivial": nontrivial}
 
 
@@ -656,6 +869,15 @@ def shrink(case):
     for i in range(len(ops)):
         yield dict(case, ops=ops[:i] + ops[i + 1:])
     ctxs = case["ctxs"]
+    if case.get("hooks") is not None:
+        hooks = case["hooks"]
+        for i, h in enumerate(hooks):
+            for w in (0, 1):
+                for j in range(len(h[w])):
+                    h2 = [list(h[0]), list(h[1])]
+                    del h2[w][j]
+                    yield dict(case, hooks=hooks[:i] + [h2] + hooks[i + 1:])
+        return
     used = sorted(set(o[1] for o in ops if o[0] in ("enter", "exit")))
     if len(used) < len(ctxs) and used:
         ren = {c: i for i, c in enumerate(used)}
@@ -673,6 +895,10 @@ def neighbours(case, rng):
             yield random_with(rng)
         return
     ctxs = case["ctxs"]
+    if case.get("hooks") is not None:
+        for _ in range(32):
+            yield mk_hooks(ctxs, case["hooks"], random_hook_history(rng, ctxs, case["hooks"], rng.randint(3, 14), 0.9), "neighbour")
+        return
     al = alphabet(len(ctxs))
     ops = case["ops"]
     for _ in range(24):
